@@ -22,6 +22,25 @@ static const int BIGSHAPE[6][2] = {{60, 25}, {60, 1}, {2, 25}, {5, 25}, {25, 5},
 struct grm_arg { matrix *mx; PCAMODEL *model; size_t pc; matrix *out; };
 static void call_grm(void *a_) { struct grm_arg *a = a_; GetResidualMatrix(a->mx, a->model, a->pc, a->out); }
 
+
+/* ---------------------------------------------------------------- reused outputs
+ * A predictor must give the same result whatever its OUTPUT object held before the call: empty (initMatrix), the result of
+ * an earlier call of the same shape, or a matrix of another shape.  None of the three routines below reads its output before
+ * (re)initialising it, the arithmetic does not depend on the previous content, and the inline / real worker threads write
+ * disjoint slices, so the comparison with the fresh result is bit for bit (NaN == NaN, -0 == +0). */
+static int m_same(const matrix *a, const matrix *b) {
+  if (a->row != b->row || a->col != b->col) return 0;
+  for (size_t i = 0; i < a->row; i++) for (size_t j = 0; j < a->col; j++) { double x = a->data[i][j], y = b->data[i][j]; if (!(x == y || (x != x && y != y))) return 0; }
+  return 1;
+}
+/* an output object that was used before for something of another shape and is full of large values */
+static matrix *m_junk(int r, int c) { matrix *m; NewMatrix(&m, (size_t)r, (size_t)c); for (int i = 0; i < r; i++) for (int j = 0; j < c; j++) m->data[i][j] = 1e3 + 7.0 * i - 3.0 * j + 0.25; return m; }
+static matrix *m_toprows(const matrix *a, int r) { matrix *m; NewMatrix(&m, (size_t)r, a->col); for (int i = 0; i < r; i++) memcpy(m->data[i], a->data[i], sizeof(double) * a->col); return m; }
+static void reuse_verdict(const char *fn, const char *cls, int ok, int n, int p, int scaling, int a, const matrix *got, const matrix *want, const char *how) {
+  char key[160]; snprintf(key, sizeof key, "reuse|%s|%s", fn, cls);
+  vx_check(ok, key, "(%dx%d) scaling %d npc %d: %s into an output that %s gives %zux%zu differing from the result with a fresh output (%zux%zu) by %g", n, p, scaling, a, fn, how, got->row, got->col, want->row, want->col, ok ? 0.0 : hm_maxdiff(got, want));
+}
+
 static void gen_data(int fam, int n, int p, double *out) {
   int kind = fam % 3, m = n < p ? n : p;
   if (kind == 2) { vg_fill(fam + 50, n, p, out); return; }
@@ -195,6 +214,16 @@ static void body(void) {
       vx_check(dg <= tol_g, key, "(%dx%d) scaling %d npc %d: max |GetResidualMatrix - (E - TP')| = %g, allowance %g", n, p, scaling, a, dg, tol_g);
       margin_note("resid-api", dg, tol_g);
       vx_log("GetResidualMatrix: diff %g allowance %g\n", dg, tol_g);
+      /* reused output (see "reused outputs" above): rmx is n x p whatever pc is */
+      { matrix *want = hm_copy(rmx), *sub = m_toprows(mx, n - 1), *o1, *o2 = m_junk(n, p + 1), *o3 = m_junk(n + 2, p + 3); initMatrix(&o1);
+        GetResidualMatrix(mx, mod, (size_t)a, rmx); int ok = m_same(rmx, want);
+        if (a > 1) { GetResidualMatrix(mx, mod, (size_t)(a - 1), rmx); GetResidualMatrix(mx, mod, (size_t)a, rmx); ok = ok && m_same(rmx, want); vx_transition(1); }
+        reuse_verdict("GetResidualMatrix", "same-shape", ok, n, p, scaling, a, rmx, want, "holds an earlier result of the same shape");
+        GetResidualMatrix(sub, mod, (size_t)a, o1); GetResidualMatrix(mx, mod, (size_t)a, o1); GetResidualMatrix(mx, mod, (size_t)a, o2);
+        reuse_verdict("GetResidualMatrix", "one-dim-differs", m_same(o1, want) && m_same(o2, want), n, p, scaling, a, m_same(o1, want) ? o2 : o1, want, "held a matrix with another number of rows (or of columns)");
+        GetResidualMatrix(mx, mod, (size_t)a, o3);
+        reuse_verdict("GetResidualMatrix", "both-dims-differ", m_same(o3, want), n, p, scaling, a, o3, want, "held a matrix with other numbers of rows and columns");
+        vx_transition(4); DelMatrix(&want); DelMatrix(&sub); DelMatrix(&o1); DelMatrix(&o2); DelMatrix(&o3); }
     }
   }
 
@@ -231,6 +260,35 @@ static void body(void) {
     DelMatrix(&xr); DelMatrix(&ps);
   }
 
+  /* ---- reused outputs of the two predictors, on EVERY execution (any npc, any processor count): same object twice, same object
+   * after a call with another npc, objects that held another shape (filled by a call on n-1 objects / with npc-1 where the
+   * API can produce such a shape, hand-filled otherwise) */
+  { matrix *sub = m_toprows(mx, n - 1), *tsub = m_toprows(mod->scores, n - 1), *got, *want, *o1, *o2, *o3; int ok;
+    /* PCAScorePredictor -> n x npc */
+    initMatrix(&got); initMatrix(&o1);
+    fit_begin(nproc, real_threads, "nonterm|PCAScorePredictor");
+    PCAScorePredictor(mx, mod, (size_t)a, got); want = hm_copy(got);
+    PCAScorePredictor(mx, mod, (size_t)a, got); ok = m_same(got, want);
+    if (a > 1) { initMatrix(&o2); PCAScorePredictor(mx, mod, (size_t)(a - 1), o2); initMatrix(&o3); PCAScorePredictor(sub, mod, (size_t)(a - 1), o3); } else { o2 = m_junk(n, a + 1); o3 = m_junk(n + 2, a + 3); }
+    reuse_verdict("PCAScorePredictor", "same-shape", ok, n, p, scaling, a, got, want, "holds an earlier result of the same shape");
+    PCAScorePredictor(sub, mod, (size_t)a, o1); PCAScorePredictor(mx, mod, (size_t)a, o1); PCAScorePredictor(mx, mod, (size_t)a, o2);
+    reuse_verdict("PCAScorePredictor", "one-dim-differs", m_same(o1, want) && m_same(o2, want), n, p, scaling, a, m_same(o1, want) ? o2 : o1, want, "held the scores of another number of objects (or of components)");
+    PCAScorePredictor(mx, mod, (size_t)a, o3);
+    reuse_verdict("PCAScorePredictor", "both-dims-differ", m_same(o3, want), n, p, scaling, a, o3, want, "held the scores of other numbers of objects and components");
+    vx_transition(5); DelMatrix(&got); DelMatrix(&want); DelMatrix(&o1); DelMatrix(&o2); DelMatrix(&o3);
+    /* PCAIndVarPredictor -> n x p for every npc */
+    initMatrix(&got); initMatrix(&o1); o2 = m_junk(n, p + 1); o3 = m_junk(n + 2, p + 3);
+    PCAIndVarPredictor(mod->scores, mod->loadings, mod->colaverage, mod->colscaling, (size_t)a, got); want = hm_copy(got);
+    PCAIndVarPredictor(mod->scores, mod->loadings, mod->colaverage, mod->colscaling, (size_t)a, got); ok = m_same(got, want);
+    if (a > 1) { PCAIndVarPredictor(mod->scores, mod->loadings, mod->colaverage, mod->colscaling, (size_t)(a - 1), got); PCAIndVarPredictor(mod->scores, mod->loadings, mod->colaverage, mod->colscaling, (size_t)a, got); ok = ok && m_same(got, want); vx_transition(1); }
+    reuse_verdict("PCAIndVarPredictor", "same-shape", ok, n, p, scaling, a, got, want, "holds an earlier result of the same shape");
+    PCAIndVarPredictor(tsub, mod->loadings, mod->colaverage, mod->colscaling, (size_t)a, o1); PCAIndVarPredictor(mod->scores, mod->loadings, mod->colaverage, mod->colscaling, (size_t)a, o1);
+    PCAIndVarPredictor(mod->scores, mod->loadings, mod->colaverage, mod->colscaling, (size_t)a, o2);
+    reuse_verdict("PCAIndVarPredictor", "one-dim-differs", m_same(o1, want) && m_same(o2, want), n, p, scaling, a, m_same(o1, want) ? o2 : o1, want, "held a matrix with another number of rows (or of columns)");
+    PCAIndVarPredictor(mod->scores, mod->loadings, mod->colaverage, mod->colscaling, (size_t)a, o3);
+    reuse_verdict("PCAIndVarPredictor", "both-dims-differ", m_same(o3, want), n, p, scaling, a, o3, want, "held a matrix with other numbers of rows and columns");
+    vx_transition(5); DelMatrix(&got); DelMatrix(&want); DelMatrix(&o1); DelMatrix(&o2); DelMatrix(&o3); DelMatrix(&sub); DelMatrix(&tsub); }
+
   /* ---- processor count: nproc workers give the sequential result */
   if (nproc != 1) {
     PCAMODEL *m1; NewPCAModel(&m1);
@@ -252,7 +310,7 @@ static void body(void) {
 int main(int argc, char **argv) {
   vg_seed(getenv("VERIF_SEED") ? atol(getenv("VERIF_SEED")) : 0);
   vx_describe("alphabet", "shape (n,p) in {2..7}x{1..5} [thorough {2..10}x{1..8}] + {(60,25),(60,1),(2,25),(5,25),(25,5),(12,12)}; data = spectral(ratio .85 | .3, sigma_1/sigma_m<=1e3) | lattice, 3 [6] instances (2 [3] for boundary shapes); column modifiers dev<=1 [2] (boundary shapes: none [at most one]): offset {0,1,-7.5,1e3}, spread {as is, min SD 0.02, one column SD 0.02, x1e3}, one constant column {none,first,last,middle}; scaling -1..5; npc 1..rank (boundary shapes: rank,1,rank-1[,2]); processor count {1,2,3,8} [+5,24] on unmodified inputs, {1,3} on modified ones, {1,8} [+3] on boundary shapes, plus real threads at nproc 3 on a small sub-alphabet");
-  vx_describe("oracle", "P'P=I; t_k=E_{k-1}p_k (long-double deflation); E=TP'+R, R p_k=0; GetResidualMatrix = R (nproc=1; scaling -1 probed in a child on unmodified inputs); varexp>=0, sum<=100, =100 at npc=rank, non-increasing where ref lambda ratio<=0.95; at npc=rank PCAIndVarPredictor reproduces X and PCAScorePredictor(X) reproduces T; nproc=k equals nproc=1. Tolerances: C*eps*size*kappa*|E|_F with kappa=sigma_1/sigma_npc from reference singular values; stop-rule slack 100*(2d+d^2), d=sqrt(n*1e-10), on the variance sum");
+  vx_describe("oracle", "P'P=I; t_k=E_{k-1}p_k (long-double deflation); E=TP'+R, R p_k=0; GetResidualMatrix = R (nproc=1; scaling -1 probed in a child on unmodified inputs); varexp>=0, sum<=100, =100 at npc=rank, non-increasing where ref lambda ratio<=0.95; at npc=rank PCAIndVarPredictor reproduces X and PCAScorePredictor(X) reproduces T; nproc=k equals nproc=1; PCAScorePredictor / PCAIndVarPredictor / GetResidualMatrix into a reused output (same shape, one or both dimensions different) = result with a fresh output, bit for bit. Tolerances: C*eps*size*kappa*|E|_F with kappa=sigma_1/sigma_npc from reference singular values; stop-rule slack 100*(2d+d^2), d=sqrt(n*1e-10), on the variance sum");
   vx_describe("preconditions", "column spread >= 0.02 or exactly 0; numerical rank (sigma_i/sigma_1 > 1e-6, gap to 1e-11) >= npc; ties at the 1e-3/1e-2 scale-factor guards pruned");
   vx_set_shard_depth(2);
   vx_expect_outcomes(40);   /* low on purpose: a library that returns the same (e.g. all-zero) model for every input of a shape must surface as violations, not as a vacuity error */
